@@ -1,4 +1,5 @@
 import Bch.Proofs.Base58
+import Bch.Proofs.WifPub
 /-
 C06 — WIF private-key strings round-trip, are canonical and checksum-guarded.
 
@@ -10,9 +11,9 @@ bytes are the double-SHA256 prefix of the rest, and every accepted string re-enc
 All theorems are about the executable model `Bch.Model.Wif` (`String`, `DecodeWIF`, `paddedAppend`);
 the private scalar is a `Nat` (`D`), the key *bytes* are `Bytes.ofNatBE 32 d`. The double SHA-256 is
 an arbitrary function `H`; the only hypothesis ever needed is that it returns at least 4 bytes.
-The public-key serialisation clause of the property is not a function of this model (it is the
-caller-side choice `if compress then serCompressed else serUncompressed` in `Bch/Drive/C06.lean`) and
-is therefore not a theorem here.
+The public-key serialisation clause (`SerializePubKey`) is modelled in `Bch/Model/WifPub.lean` over an
+abstract curve (`k ↦ k•G`, compressed and uncompressed point serialisation) and stated at the end of this
+file (`C06_pubkey`, `C06_pubkey_roundtrip`).
 Proofs are in `Bch/Proofs/Base58.lean`.
 -/
 namespace Bch.Props.C06
@@ -166,5 +167,53 @@ example : Wif.String H0 ⟨9, false, 5⟩ = Encode (5 :: (List.replicate 31 0 ++
 example : DecodeWIF H0 [] = .error .malformed := by
   rw [C06_malformed_iff]; simp [Decode, decodeNat, leadingOnes, ofNatMin_zero]
 end
+
+/-! ### public-key serialisation (`SerializePubKey`) -/
+
+/-- `SerializePubKey` is the compressed serialisation of `d•G` (33 bytes) when the flag is set and the
+uncompressed one (65 bytes) otherwise. The only laws needed are the lengths of the two serialisations on
+the points `k•G`. -/
+theorem C06_pubkey {Pt : Type} (C : Curve Pt)
+    (hC : ∀ k, (C.serC (C.mulG k)).length = 33) (hU : ∀ k, (C.serU (C.mulG k)).length = 65) (w : WIF) :
+    (w.compress = true →
+      SerializePubKey C w = C.serC (C.mulG w.d) ∧ (SerializePubKey C w).length = 33) ∧
+    (w.compress = false →
+      SerializePubKey C w = C.serU (C.mulG w.d) ∧ (SerializePubKey C w).length = 65) := by
+  constructor
+  · intro h
+    have e : SerializePubKey C w = C.serC (C.mulG w.d) := by simp [SerializePubKey, h]
+    exact ⟨e, by rw [e]; exact hC _⟩
+  · intro h
+    have e : SerializePubKey C w = C.serU (C.mulG w.d) := by simp [SerializePubKey, h]
+    exact ⟨e, by rw [e]; exact hU _⟩
+
+/-- Decoding a WIF string and serialising the public key gives the same bytes as serialising the key
+the string was made from: for every 32-byte key, net id and flag (`C06_roundtrip`), and for every scalar
+below `2^256`. -/
+theorem C06_pubkey_roundtrip {Pt : Type} (C : Curve Pt) (H : Bytes → Bytes)
+    (hH : ∀ x, 4 ≤ (H x).length) :
+    (∀ w : WIF, w.d < 2 ^ 256 →
+      (DecodeWIF H (Wif.String H w)).map (SerializePubKey C) = .ok (SerializePubKey C w)) ∧
+    (∀ k : Bytes, k.length = 32 → ∀ (netID : UInt8) (compress : Bool),
+      (DecodeWIF H (Wif.String H ⟨Bytes.toNatBE k, compress, netID⟩)).map (SerializePubKey C)
+        = .ok (SerializePubKey C ⟨Bytes.toNatBE k, compress, netID⟩)) := by
+  constructor
+  · intro w hd
+    rw [C06_roundtrip_nat H hH w hd]; rfl
+  · intro k hk netID compress
+    rw [(C06_roundtrip H hH k hk netID compress).1]; rfl
+
+/-- non-vacuity of the laws of `C06_pubkey`: the secp256k1 instance used by the differential driver -/
+example : (∀ k, (secp.serC (secp.mulG k)).length = 33) ∧ (∀ k, (secp.serU (secp.mulG k)).length = 65) :=
+  ⟨Bch.Proofs.WifPub.secp_serC_length, Bch.Proofs.WifPub.secp_serU_length⟩
+
+/-- test: the key 1 — the compressed / uncompressed encodings of the generator `G` -/
+example :
+    SerializePubKey secp ⟨1, true, 0x80⟩
+      = 0x02 :: Bytes.ofNatBE 32 0x79BE667EF9DCBBAC55A06295CE870B07029BFCDB2DCE28D959F2815B16F81798 ∧
+    SerializePubKey secp ⟨1, false, 0x80⟩
+      = 0x04 :: (Bytes.ofNatBE 32 0x79BE667EF9DCBBAC55A06295CE870B07029BFCDB2DCE28D959F2815B16F81798 ++
+                 Bytes.ofNatBE 32 0x483ADA7726A3C4655DA4FBFC0E1108A8FD17B448A68554199C47D08FFB10D4B8) := by
+  decide +kernel
 
 end Bch.Props.C06
